@@ -116,7 +116,7 @@ DEFAULT_ERR_MAP = [
     ("ActionError", "client"),
     ("HLSError", "client"),
     ("DlmsClientException", "client"),
-    ("HdlcParsingError", "decode"),
+    ("HdlcParsingError", "parse"),
     ("NotImplementedError", "decode"),
     ("ValueError", "decode"),
     ("KeyError", "decode"),
@@ -258,21 +258,32 @@ def theorem_names(module_file, namespace):
     return [namespace + "." + m for m in re.findall(r"^theorem\s+([A-Za-z0-9_.']+)", src_nc, flags=re.M)]
 
 
-def scan_forbidden():
-    hits = []
-    for root, _, files in os.walk(LEAN_DIR):
-        if ".lake" in root:
+def import_closure(module):
+    """files of the project that `module` (e.g. DlmsVerif.Props.C09) transitively imports."""
+    seen, todo = set(), [module]
+    while todo:
+        m = todo.pop()
+        if m in seen:
             continue
-        for fn in files:
-            if not fn.endswith(".lean"):
-                continue
-            p = os.path.join(root, fn)
-            src = open(p).read()
-            src_nc = re.sub(r"/-.*?-/", lambda m: "\n" * m.group(0).count("\n"), src, flags=re.S)
-            src_nc = re.sub(r"--.*", "", src_nc)
-            for m in FORBIDDEN_TOKENS.finditer(src_nc):
-                line = src_nc.count("\n", 0, m.start()) + 1
-                hits.append(f"{os.path.relpath(p, LEAN_DIR)}:{line}: {m.group(0).strip()}")
+        path = os.path.join(LEAN_DIR, *m.split(".")) + ".lean"
+        if not os.path.exists(path):
+            continue
+        seen.add(m)
+        for imp in re.findall(r"^import\s+(DlmsVerif\.[A-Za-z0-9_.]+)", open(path).read(), flags=re.M):
+            todo.append(imp)
+    return [os.path.join(LEAN_DIR, *m.split(".")) + ".lean" for m in sorted(seen)]
+
+
+def scan_forbidden(prop_id):
+    """forbidden tokens in the property's own import closure (comments stripped)."""
+    hits = []
+    for p in import_closure(f"DlmsVerif.Props.{prop_id}"):
+        src = open(p).read()
+        src_nc = re.sub(r"/-.*?-/", lambda m: "\n" * m.group(0).count("\n"), src, flags=re.S)
+        src_nc = re.sub(r"--.*", "", src_nc)
+        for m in FORBIDDEN_TOKENS.finditer(src_nc):
+            line = src_nc.count("\n", 0, m.start()) + 1
+            hits.append(f"{os.path.relpath(p, LEAN_DIR)}:{line}: {m.group(0).strip()}")
     return hits
 
 
@@ -324,7 +335,7 @@ def build_and_audit(prop_id, extra_targets=()):
         else:
             res.theorems = {n: None for n in names}
             res.audit_ok = False
-    res.forbidden = scan_forbidden()
+    res.forbidden = scan_forbidden(prop_id)
     res.wall_s = time.time() - t0
     return res
 
@@ -454,6 +465,20 @@ def evaluate_cases(prop, case_iter, stats, max_mismatches=25, sample_every=None,
                 stats.samples.append({"descr": c.descr, "lines": c.lines[:6], "expected": exp[:6], "observed": obs[:6]})
             if "bad-op" in exp:
                 raise MachineryError(f"driver rejected protocol line(s) {c.lines[:3]} -> {exp[:3]}")
+            if c.kind == "fault":
+                # lines = [parse(original), parse(corrupted)].  The property: the original parses to its
+                # content, and the corrupted string is refused or yields exactly that content.
+                good = (exp[0] == obs[0] and exp[0].startswith("ok ")
+                        and (obs[1].startswith("err ") or obs[1] == exp[0]))
+                if not good:
+                    c.kind = "prop"
+                    mismatches.append(Mismatch(c, exp, obs))
+                elif list(exp) != list(obs):
+                    c.kind = "model"
+                    mismatches.append(Mismatch(c, exp, obs))
+                else:
+                    c.kind = "fault"
+                continue
             if list(exp) != list(obs):
                 if c.kind == "split":
                     # lines are "<what the property demands> | <what the model of the code does>"
@@ -466,8 +491,15 @@ def evaluate_cases(prop, case_iter, stats, max_mismatches=25, sample_every=None,
         buf.append(c)
         if sum(len(x.lines) for x in buf) >= prop.chunk:
             flush()
-            if len(mismatches) >= max_mismatches:
+            n_prop = sum(1 for m in mismatches if m.case.kind == "prop")
+            if n_prop >= max_mismatches:
                 break
+            if len(mismatches) - n_prop > 400:
+                # keep memory bounded: drop surplus model-level disagreements (they are counted below)
+                keep = [m for m in mismatches if m.case.kind == "prop"]
+                keep += [m for m in mismatches if m.case.kind != "prop"][:400]
+                stats.dropped_model = getattr(stats, "dropped_model", 0) + len(mismatches) - len(keep)
+                mismatches[:] = keep
     flush()
     return mismatches
 
